@@ -54,6 +54,7 @@ import (
 	"sort"
 	"strings"
 	"sync"
+	"sync/atomic"
 	"time"
 
 	"github.com/CycloneDX/cyclonedx-go"
@@ -168,6 +169,21 @@ func shapes(t string) []poolItem {
 		mk("everything", purl.PackageURL{Namespace: "Ns1/n s2", Name: specialName, Version: "1~rc:2+3", Qualifiers: q("repository_url", "https://x.y/z?a=b", "arch", "x86"), Subpath: "sub dir/p"}),
 	}
 	out[6].Loc = `dir/file <1> & "2".lock`
+	return out
+}
+
+// structuralShapes: packages whose name (and version) coincide with names the exporters use for
+// their own structural elements: the SPDX root package ("main", version "0"), the default SPDX
+// document name, the tool/creator name, SPDX ids and the SPDX special values.
+func structuralShapes(t string) []poolItem {
+	var out []poolItem
+	for _, nv := range [][3]string{
+		{"main-0", "main", "0"}, {"main", "main", "1.0"}, {"scalibr", "SCALIBR", "1.0"},
+		{"document-name", "SCALIBR-generated SPDX", "1.0"}, {"spdx-document-id", "SPDXRef-Document", "1.0"},
+		{"document", "DOCUMENT", "1.0"}, {"noassertion", "NOASSERTION", "NOASSERTION"}, {"none", "NONE", "1.0"},
+	} {
+		out = append(out, poolItem{Shape: "name-structural-" + nv[0], Type: t, U: &purl.PackageURL{Type: t, Name: nv[1], Version: nv[2]}, Loc: "dir/structural.lock"})
+	}
 	return out
 }
 
@@ -376,10 +392,213 @@ func roundTrip(inv []poolItem, f format, dir string) (o outcome) {
 	return o
 }
 
+func scanResultOf(inv []poolItem) *scalibr.ScanResult {
+	pkgs := make([]*extractor.Package, 0, len(inv))
+	for _, p := range inv {
+		pkgs = append(pkgs, p.pkg())
+	}
+	return &scalibr.ScanResult{
+		Version: "verif", StartTime: time.Unix(1700000000, 0), EndTime: time.Unix(1700000001, 0),
+		Status:    &plugin.ScanStatus{Status: plugin.ScanStatusSucceeded},
+		Inventory: inventory.Inventory{Packages: pkgs},
+	}
+}
+
+// scanWith runs one filesystem scan of dir with the given extractor instances and returns the
+// canonical PURL multiset of the returned packages.
+func scanWith(exs []filesystem.Extractor, dir string) []string {
+	got, _, _ := filesystem.Run(context.Background(), &filesystem.Config{
+		Extractors: exs, ScanRoots: scalibrfs.RealFSScanRoots(dir), Stats: stats.NoopCollector{},
+	})
+	out := []string{}
+	for _, p := range got.Packages {
+		if p == nil || p.Extractor == nil {
+			continue
+		}
+		if u := p.Extractor.ToPURL(p); u != nil {
+			out = append(out, canon(u.String()))
+		}
+	}
+	sort.Strings(out)
+	return out
+}
+
+// hfile is one exported file of the history phase, alone in its own directory.
+type hfile struct {
+	Label  string // file name, unique within the case
+	Dir    string
+	Export int // which export (document object) it serialises
+	Copy   int // files with equal Copy are byte-identical
+}
+
+// histCase: inventory I1 exported once and written in every serialisation of the family plus a
+// byte-identical copy; inventory I2 exported separately. fam is "cdx" or "spdx".
+func histFiles(fam string, i1, i2 []poolItem, dir string) ([]hfile, error) {
+	var files []hfile
+	add := func(label string, export, cp int, write func(path string) error) error {
+		d := filepath.Join(dir, fmt.Sprintf("f%d", len(files)))
+		if err := os.MkdirAll(d, 0o755); err != nil {
+			return err
+		}
+		if err := write(filepath.Join(d, label)); err != nil {
+			return err
+		}
+		files = append(files, hfile{label, d, export, cp})
+		return nil
+	}
+	cp := func(from string) func(string) error {
+		return func(to string) error {
+			b, err := os.ReadFile(from)
+			if err != nil {
+				return err
+			}
+			return os.WriteFile(to, b, 0o644)
+		}
+	}
+	var err error
+	step := func(e error) {
+		if err == nil {
+			err = e
+		}
+	}
+	if fam == "cdx" {
+		b1 := converter.ToCDX(scanResultOf(i1), converter.CDXConfig{})
+		b2 := converter.ToCDX(scanResultOf(i2), converter.CDXConfig{})
+		step(add("a.cdx.json", 1, 1, func(p string) error { return cdx.Write(b1, p, "cdx-json") }))
+		if err == nil {
+			step(add("b.cdx.json", 1, 1, cp(filepath.Join(files[0].Dir, files[0].Label))))
+		}
+		step(add("c.cdx.xml", 1, 2, func(p string) error { return cdx.Write(b1, p, "cdx-xml") }))
+		step(add("d.cdx.json", 2, 3, func(p string) error { return cdx.Write(b2, p, "cdx-json") }))
+		return files, err
+	}
+	d1 := converter.ToSPDX23(scanResultOf(i1), converter.SPDXConfig{})
+	d2 := converter.ToSPDX23(scanResultOf(i2), converter.SPDXConfig{})
+	step(add("a.spdx.json", 1, 1, func(p string) error { return spdx.Write23(d1, p, "spdx23-json") }))
+	if err == nil {
+		step(add("b.spdx.json", 1, 1, cp(filepath.Join(files[0].Dir, files[0].Label))))
+	}
+	step(add("c.spdx.yml", 1, 2, func(p string) error { return spdx.Write23(d1, p, "spdx23-yaml") }))
+	step(add("d.spdx", 1, 3, func(p string) error { return spdx.Write23(d1, p, "spdx23-tag-value") }))
+	step(add("e.spdx.json", 2, 4, func(p string) error { return spdx.Write23(d2, p, "spdx23-json") }))
+	return files, err
+}
+
+func newImporter(fam string) filesystem.Extractor {
+	if fam == "cdx" {
+		return cdxe.New()
+	}
+	return spdxe.New()
+}
+
+type histViolation struct {
+	Class string
+	What  string
+	Seq   []string
+}
+
+// histRun: every sequence (with repetition) of 2 and of 3 exported files imported one after the
+// other by ONE extractor instance must give, at every step, what a fresh instance gives for
+// that file; and one scan over all files together must give the sum. seqOnly != nil restricts
+// the run to that sequence (replay).
+func histRun(fam string, i1, i2 []poolItem, dir string, seqOnly []string) (vs []histViolation, runs int, panicked string) {
+	defer os.RemoveAll(dir)
+	pv, st := ev.Recover(func() {
+		files, err := histFiles(fam, i1, i2, dir)
+		if err != nil {
+			return // export problems are phase 1's business
+		}
+		fresh := make([][]string, len(files))
+		var all []string
+		for i, f := range files {
+			fresh[i] = scanWith([]filesystem.Extractor{newImporter(fam)}, f.Dir)
+			all = append(all, fresh[i]...)
+			runs++
+		}
+		sort.Strings(all)
+		eq := func(a, b []string) bool { return len(multisetDiff(a, b)) == 0 && len(multisetDiff(b, a)) == 0 }
+		idx := map[string]int{}
+		for i, f := range files {
+			idx[f.Label] = i
+		}
+		try := func(seq []int) {
+			inst := newImporter(fam)
+			for k, fi := range seq {
+				got := scanWith([]filesystem.Extractor{inst}, files[fi].Dir)
+				runs++
+				if eq(got, fresh[fi]) {
+					continue
+				}
+				class := "after-different-export"
+				rank := 0
+				for _, pj := range seq[:k] {
+					switch {
+					case pj == fi && rank < 3:
+						class, rank = "same-file-again", 3
+					case files[pj].Copy == files[fi].Copy && rank < 2:
+						class, rank = "copy-of-earlier-document", 2
+					case files[pj].Export == files[fi].Export && rank < 1:
+						class, rank = "other-serialisation-of-earlier-export", 1
+					}
+				}
+				var labels []string
+				for _, x := range seq {
+					labels = append(labels, files[x].Label)
+				}
+				vs = append(vs, histViolation{class, fmt.Sprintf("one sbom/%s extractor instance importing %q in sequence: import #%d (%s) returned %q, a fresh instance returns %q", fam, labels, k+1, files[fi].Label, got, fresh[fi]), labels})
+				return
+			}
+		}
+		if seqOnly != nil {
+			if len(seqOnly) == 1 && seqOnly[0] == "*" {
+				seqOnly = nil
+			} else {
+				var seq []int
+				for _, l := range seqOnly {
+					seq = append(seq, idx[l])
+				}
+				try(seq)
+				return
+			}
+		}
+		n := len(files)
+		for a := 0; a < n; a++ {
+			for b := 0; b < n; b++ {
+				try([]int{a, b})
+			}
+		}
+		for a := 0; a < n; a++ {
+			for b := 0; b < n; b++ {
+				for c := 0; c < n; c++ {
+					try([]int{a, b, c})
+				}
+			}
+		}
+		// one scan that meets all files
+		got := scanWith([]filesystem.Extractor{newImporter(fam)}, dir)
+		runs++
+		if !eq(got, all) {
+			vs = append(vs, histViolation{"one-scan-several-files", fmt.Sprintf("one scan with sbom/%s over a directory holding %d exported files returned %q, the files scanned separately give %q", fam, len(files), got, all), []string{"*"}})
+		}
+	})
+	if pv != nil {
+		panicked = fmt.Sprint(pv) + " at " + ev.PanicSite(st)
+	}
+	return vs, runs, panicked
+}
+
+type histReplay struct {
+	Family string     `json:"importer"`
+	I1     []poolItem `json:"inventory_1"`
+	I2     []poolItem `json:"inventory_2"`
+	Seq    []string   `json:"file_sequence"`
+}
+
 type replay struct {
-	Format    string     `json:"format"`
-	Inventory []poolItem `json:"inventory"`
-	File      string     `json:"file_name,omitempty"` // "" = the default name of the format
+	History   *histReplay `json:"history,omitempty"`
+	Format    string      `json:"format"`
+	Inventory []poolItem  `json:"inventory"`
+	File      string      `json:"file_name,omitempty"` // "" = the default name of the format
 }
 
 func scratchRoot() string {
@@ -408,6 +627,19 @@ func doReplay(file string) {
 		os.Exit(3)
 	}
 	root := scratchRoot()
+	if h := rec.Replay.History; h != nil {
+		vs, _, pan := histRun(h.Family, h.I1, h.I2, root+"/hist", h.Seq)
+		os.RemoveAll(root)
+		fmt.Printf("replay %s importer=sbom/%s sequence=%q panic=%q\n", rec.Key, h.Family, h.Seq, pan)
+		for _, v := range vs {
+			fmt.Println("reproduced:", v.What)
+		}
+		if len(vs) > 0 || pan != "" {
+			os.Exit(1)
+		}
+		fmt.Println("not reproduced: every import equals a fresh instance's")
+		os.Exit(0)
+	}
 	var f format
 	for _, x := range formats {
 		if x.Name == rec.Replay.Format {
@@ -512,6 +744,17 @@ func main() {
 			typesWithShape[s.Shape]++
 			if s.Shape == "bare" || t == purl.TypeGeneric || t == purl.TypeDebian {
 				Q = append(Q, *rp)
+			}
+		}
+	}
+	// names that coincide with the exporters' own structural names (types generic and deb; the
+	// root-package look-alike main@0 also in Q)
+	for _, t := range []string{purl.TypeGeneric, purl.TypeDebian} {
+		for _, it := range structuralShapes(t) {
+			P = append(P, it)
+			typesWithShape[it.Shape]++
+			if t == purl.TypeGeneric && it.Shape == "name-structural-main-0" {
+				Q = append(Q, it)
 			}
 		}
 	}
@@ -824,6 +1067,53 @@ func main() {
 	r.Set("file_names_judged", nameStats)
 	r.Assume("file names: spellings marked 'by analogy' (upper-case variants of bom.json/bom.xml, .cdx.xml, .spdx.json, .spdx.yml) assume the importers match ALL their patterns case-insensitively; the extractors' own tests establish that only for *.cdx.json (sbom.cdx.JSON, sbom.cDX.json) and *.spdx (sbom.SPDX, sbom.SpDx), the rest follows from the single ToLower-based matcher they share")
 	if doneN < len(jobsN) {
+		finish("SBOM export -> own importer round trip preserves the PURL multiset", false)
+	}
+
+	// phase 1c: history independence of the importers (see histRun). Cases: I1 = a single-package
+	// inventory over Q (quick: every 6th, thorough: all), I2 = I1 again (a second export of the same
+	// inventory) for even cases, else a fixed two-package inventory; x {sbom/cdx, sbom/spdx}.
+	type hjob struct {
+		fam    string
+		i1, i2 []poolItem
+	}
+	var jobsH []hjob
+	hstep := ev.Pick(r, 6, 1)
+	for i := 0; i < len(Q); i += hstep {
+		if Q[i].U == nil {
+			continue
+		}
+		i1 := []poolItem{Q[i]}
+		i2 := []poolItem{Q[0], Q[3]}
+		if (i/hstep)%2 == 0 {
+			i2 = i1
+		}
+		for _, fam := range []string{"cdx", "spdx"} {
+			jobsH = append(jobsH, hjob{fam, i1, i2})
+		}
+	}
+	resH := make([][]histViolation, len(jobsH))
+	panH := make([]string, len(jobsH))
+	var histRuns atomic.Int64
+	doneH := r.ParallelFor(len(jobsH), func(i int) {
+		j := jobsH[i]
+		vs, n, pan := histRun(j.fam, j.i1, j.i2, nextDir(), nil)
+		resH[i], panH[i] = vs, pan
+		histRuns.Add(int64(n))
+		r.Evals.Add(int64(n))
+		r.Distinct("history|" + j.fam + "|" + fmt.Sprint(purlsOf(j.i1), purlsOf(j.i2)))
+	})
+	for i, vs := range resH {
+		j := jobsH[i]
+		if panH[i] != "" {
+			r.Violation("panic:history:sbom/"+j.fam, fmt.Sprintf("importing exported files of %q / %q in sequence panicked: %s", purlsOf(j.i1), purlsOf(j.i2), panH[i]), replay{History: &histReplay{j.fam, j.i1, j.i2, []string{"*"}}})
+		}
+		for _, v := range vs {
+			r.Violation("history:sbom/"+j.fam+":"+v.Class, v.What, replay{History: &histReplay{j.fam, j.i1, j.i2, v.Seq}})
+		}
+	}
+	r.Set("history_phase", map[string]any{"cases": len(jobsH), "scans": histRuns.Load()})
+	if doneH < len(jobsH) {
 		finish("SBOM export -> own importer round trip preserves the PURL multiset", false)
 	}
 
